@@ -141,3 +141,35 @@ PROPS["C12"] = dict(
     assumptions=[],
     trusted_base=TB_COMMON,
 )
+
+# ---------------------------------------------------------------------------------------------- C05
+
+
+def _c05_floors(m, tier):
+    out = need(m, "point_class", ["random_encoding", "prime_subgroup", "loworder", "edge_encoding"], "point classes")
+    out += need(m, "special_point", ["loworder:0", "loworder:1", "loworder:order8a", "loworder:order8b", "loworder:p-1", "loworder:p",
+                                     "loworder:p+1", "loworder:order8a|bit255", "u=2^255-1", "u=p+2", "u=2", "rfc7748:u1"], "special encodings")
+    out += need(m, "kx", ["honest", "loworder_peer", "random_peer", "edge_peer"], "kx peer classes")
+    out += need(m, "rfc7748_iterations", ["1", "1000"] if tier == "quick" else ["1", "1000", "1000000"], "RFC 7748 iterated vectors")
+    if "x25519_point_side" in m.cov and len(m.cov["x25519_point_side"]) < 2:
+        out.append("offline classification saw only one of curve/twist")
+    return out
+
+
+PROPS["C05"] = dict(
+    level="exploration",
+    technique="runtime differential monitoring: libsodium crypto_scalarmult / crypto_box_beforenm / crypto_kx online on random, low-order, twist and non-canonical encodings; RFC 7748 Montgomery ladder in Python offline; RFC iterated vectors",
+    level_text="X25519 is executed on uniformly random 32-byte encodings (most of them off the prime-order subgroup), on the complete low-order table with "
+               "its non-canonical and high-bit variants, on edge field elements around p and 2^255, and on the RFC 7748 (iterated) vectors; DH commutativity, "
+               "box precomputation and key-exchange session keys (classic + object API) are compared with libsodium including its refusals. The scalar/point "
+               "space is 2^512, so this is exploration: dense on the special encodings, sampled elsewhere.",
+    level_note="Where libsodium returns -1 (block-listed input or all-zero result) the RFC 7748 value is all-zero; the Python ladder arbitrates those cases offline.",
+    runs=lambda tier: [dict(build="st", monitor="c05")],
+    offline=offline.check_c05,
+    models=["x25519", "salsa20"],
+    floors=_c05_floors,
+    rule="a case is (scalar, point encoding) or (key pair, peer key); distinct by the generated 32-byte values / special-table cell; non-trivial: every case "
+         "(no two draws coincide); the offline oracle classifies sampled points as on-curve / on-twist",
+    assumptions=["crypto_box_beforenm cannot signal failure in dryoc's signature: where libsodium refuses a peer key the value is not compared (counted in coverage.dimensions.beforenm)"],
+    trusted_base=TB_COMMON,
+)
